@@ -112,12 +112,22 @@ pub struct CaseLog {
     pub requests: Vec<Req>,
 }
 
-pub fn run_case(cx: &Ctx, rng: &mut Rng, spec: CaseSpec) -> CaseLog {
+pub fn run_case(cx: &Ctx, rng: &mut Rng, mut spec: CaseSpec) -> CaseLog {
     let target = format!("/case/{}/printers/p%20{}?q={}&x=a%2Fb", spec.id, spec.id, spec.id);
     let uri = format!("{}://127.0.0.1:{}{}", spec.scheme, cx.srv.port, target);
     let plan = spec.plan.clone();
     cx.srv.on(&spec.id, Arc::new(move |_r: &Req| plan.clone()));
     let mut req = mirror::to_ipp(&spec.request);
+    // every third exchange: the request is encoded once, then its header is changed through header_mut() before it is sent
+    // (the POST body must carry the request as it is at send time)
+    if hash64(spec.id.as_bytes()) % 3 == 0 {
+        std::hint::black_box(req.to_bytes().len());
+        let h = req.header_mut();
+        h.request_id = h.request_id.wrapping_add(0x0101_0101);
+        h.operation_or_status ^= 0x0001;
+        spec.request.id = spec.request.id.wrapping_add(0x0101_0101);
+        spec.request.code ^= 0x0001;
+    }
     // the "no response head" cases without a payload use a genuinely empty payload (IppPayload::empty())
     let src = if spec.id.starts_with('h') && spec.request.data.is_empty() { "none" } else { attach_payload(rng, spec.kind, &mut req, &spec.request.data) };
     let result = match spec.kind {
@@ -209,7 +219,14 @@ fn rand_cfg(rng: &mut Rng) -> ClientCfg {
     for i in 0..rng.range(0, 3) {
         cfg.headers.push((format!("X-Verif-{i}"), format!("v{}-{}", i, rng.below(1000))));
     }
-    if rng.chance(1, 2) {
+    if rng.chance(1, 6) {
+        // edge cases RFC 7617 allows: empty user and/or empty password (still sent: "Basic Og==" for both empty)
+        cfg.basic = Some(match rng.below(3) {
+            0 => (String::new(), String::new()),
+            1 => (String::new(), "pw".to_string()),
+            _ => ("user".to_string(), String::new()),
+        });
+    } else if rng.chance(1, 2) {
         // arbitrary UTF-8 credentials; many of them have '+' or '/' in their base64 image
         let user = match rng.below(3) {
             0 => format!("user{}", rng.below(100)),
